@@ -81,42 +81,49 @@ def run_impl(ctx, cases, tag, procs=8, timeout=900):
     parts = [list(range(i, n, procs)) for i in range(procs)]
 
     def one(k):
-        fin = os.path.join(C.BUILD, "%s_in_%d.json" % (tag, k))
-        fout = os.path.join(C.BUILD, "%s_out_%d.json" % (tag, k))
-        with open(fin, "w") as f:
-            json.dump({"cases": [cases[i] for i in parts[k]]}, f)
-        if os.path.exists(fout):
-            os.remove(fout)
-        rc, out = C.sh([vt, "-test.run", "^TestHarness$", "-test.timeout", "%ds" % timeout, "-mode", "link",
-                        "-in", fin, "-out", fout], env=C.GOENV, timeout=timeout + 60)
-        if rc != 0 or not os.path.exists(fout):
-            return k, None, out
-        return k, json.load(open(fout)), out
-
-    results = [None] * n
-    crashed = []
-    with ThreadPoolExecutor(max_workers=procs) as ex:
-        for k, r, out in ex.map(one, range(procs)):
-            if r is None:
-                crashed.append((k, out))
-            else:
-                for i, x in zip(parts[k], r):
-                    results[i] = x
-    # a crashed batch is re-run case by case to find the culprit(s)
-    for k, out in crashed:
-        for i in parts[k]:
-            fin = os.path.join(C.BUILD, "%s_in_single.json" % tag)
-            fout = os.path.join(C.BUILD, "%s_out_single.json" % tag)
+        """runs the cases of part k; a wedged case makes the harness exit after marking it: the rest is re-run in a new process"""
+        todo = list(parts[k])
+        got = {}
+        rounds = 0
+        while todo and rounds < 40:
+            rounds += 1
+            fin = os.path.join(C.BUILD, "%s_in_%d.json" % (tag, k))
+            fout = os.path.join(C.BUILD, "%s_out_%d.json" % (tag, k))
             with open(fin, "w") as f:
-                json.dump({"cases": [cases[i]]}, f)
+                json.dump({"cases": [cases[i] for i in todo]}, f)
             if os.path.exists(fout):
                 os.remove(fout)
-            rc, o = C.sh([vt, "-test.run", "^TestHarness$", "-test.timeout", "120s", "-mode", "link",
-                          "-in", fin, "-out", fout], env=C.GOENV, timeout=180)
-            if rc != 0 or not os.path.exists(fout):
-                results[i] = {"crash": o[-1500:]}
-            else:
-                results[i] = json.load(open(fout))[0]
+            rc, out = C.sh([vt, "-test.run", "^TestHarness$", "-test.timeout", "%ds" % timeout, "-mode", "link",
+                            "-in", fin, "-out", fout], env=C.GOENV, timeout=timeout + 60)
+            if not os.path.exists(fout):
+                # the process died without a result file (a panic in a stage goroutine): find the culprit one by one
+                for i in todo:
+                    with open(fin, "w") as f:
+                        json.dump({"cases": [cases[i]]}, f)
+                    if os.path.exists(fout):
+                        os.remove(fout)
+                    rc1, o1 = C.sh([vt, "-test.run", "^TestHarness$", "-test.timeout", "120s", "-mode", "link", "-in", fin, "-out", fout],
+                                   env=C.GOENV, timeout=180)
+                    got[i] = json.load(open(fout))[0] if os.path.exists(fout) else {"crash": o1[-1500:]}
+                todo = []
+                break
+            rs = json.load(open(fout))
+            nxt = []
+            for i, r in zip(todo, rs):
+                if r.get("not_run"):
+                    nxt.append(i)
+                else:
+                    got[i] = r
+            todo = nxt
+        for i in todo:
+            got[i] = {"crash": "not run"}
+        return k, got
+
+    results = [None] * n
+    with ThreadPoolExecutor(max_workers=procs) as ex:
+        for k, got in ex.map(one, range(procs)):
+            for i, r in got.items():
+                results[i] = r
     return results
 
 
@@ -249,7 +256,7 @@ def load_corpus(pid):
 
 
 def run_link_property(ctx, pid, gen_cases, oracle, classify, rule, nontrivial, assumptions,
-                      extra_targets=(), model_filter=None, known_class=None, extra_cov=None):
+                      extra_targets=(), model_filter=None, known_class=None, extra_cov=None, hang_is_failure=False):
     verdict = C.Verdict(ctx)
     rng = C.Rng(ctx.seed).fork(pid)
     proof = C.proof_step(ctx, verdict, pid, extra_targets=["Run/LinkRun.vo"] + list(extra_targets))
@@ -274,13 +281,22 @@ def run_link_property(ctx, pid, gen_cases, oracle, classify, rule, nontrivial, a
                 results.append(m)
             r["more"] = None
     failing = []
+    wedged = 0
     for i, (c, r) in enumerate(zip(cases, results)):
+        if r and r.get("hang"):
+            wedged += 1
+            if hang_is_failure:
+                failing.append((case_cost(c), i, "wedged: an API operation or the teardown never completed (no progress for 25 s of real time)"))
+            continue
         w = oracle(c, r)
         if w:
             failing.append((case_cost(c), i, w))
     failing.sort()
+    if wedged and not hang_is_failure:
+        ctx.notes.append("%d scripts wedged (lock-up of finding F8, judged by C07/C16) and are inconclusive for this property" % wedged)
     model_ok = os.path.exists(os.path.join(C.COQ, "Run", "LinkRun.vo"))
-    idx = [i for i, r in enumerate(results) if r is not None and "crash" not in r and (model_filter is None or model_filter(cases[i]))]
+    idx = [i for i, r in enumerate(results) if r is not None and "crash" not in r and not r.get("hang")
+           and (model_filter is None or model_filter(cases[i]))]
     mism = {}
     if model_ok:
         mism = model_verdicts(ctx, cases, results, idx, pid.lower())
@@ -295,10 +311,13 @@ def run_link_property(ctx, pid, gen_cases, oracle, classify, rule, nontrivial, a
 
         def fails(c, _w=w):
             r = run_impl(ctx, [c], pid.lower() + "_shrink", procs=1)
-            return oracle(c, r[0]) is not None
+            if r[0] and r[0].get("hang"):
+                return _w.startswith("wedged")
+            w2 = oracle(c, r[0])
+            return w2 is not None and classify(w2) == classify(_w) and w2[:20] == _w[:20]
         small = shrink(cases[i], fails) if len(reported) <= 2 else cases[i]
         r_small = run_impl(ctx, [small], pid.lower() + "_shrink", procs=1)[0]
-        verdict.add(key, oracle(small, r_small) or w,
+        verdict.add(key, (w if (r_small or {}).get("hang") else oracle(small, r_small)) or w,
                     {"kind": "failing-input", "case": small, "observed": r_small, "oracle": w,
                      "model_predicts": model_trace(ctx, small, pid.lower() + "_trace") if model_ok else None})
     if not failing:
